@@ -1318,7 +1318,12 @@ def partial_reduce(
     combine_sizes = combine_sizes or {}
     combine_sizes = {k: combine_sizes.get(k, 1) for k in axis}
     chunks = tuple(
-        (combine_sizes[i],) * math.ceil(len(c) / split_every[i])
+        (
+            # explicit chunk sizes along this axis
+            combine_sizes[i]
+            if isinstance(combine_sizes[i], tuple)
+            else (combine_sizes[i],) * math.ceil(len(c) / split_every[i])
+        )
         if i in split_every
         else c
         for (i, c) in enumerate(x.chunks)
@@ -1665,13 +1670,19 @@ def scan(
         return a
 
     split_size = min(split_every, array.numblocks[axis])
+    # each block of `reduced` holds one value per merged block of `array`,
+    # so its last block is shorter when the number of blocks is not a multiple of split_size
+    nb = array.numblocks[axis]
+    reduced_chunks = (split_size,) * (nb // split_size)
+    if nb % split_size != 0:
+        reduced_chunks += (nb % split_size,)
     reduced = partial_reduce(
         array,
         initial_func=partial(preop, axis=axis, keepdims=True),
         func=identity_func,
         split_every={axis: split_size},
         dtype=dtype,
-        combine_sizes={axis: split_size},
+        combine_sizes={axis: reduced_chunks},
     )
 
     # 3. Now scan `reduced` to generate the increments for each block of `scanned`.
